@@ -176,6 +176,10 @@ class Sched {
           if (allowTimeouts_ && ths_[i]->timed) cand.push_back(static_cast<int>(i));
         }
       }
+      size_t nTimed = cand.size() - nRunnable;
+      if (allowSpurious_)      // a futex wait may return 0 although nobody woke it (signal, spurious wake-up): implementation-only probes
+        for (size_t i = 0; i < ths_.size(); ++i)
+          if (ths_[i]->st == St::Blocked) cand.push_back(static_cast<int>(i));
       if (allFinished) {
         status_ = "done";
         return;
@@ -190,7 +194,10 @@ class Sched {
       }
       size_t k = static_cast<size_t>(nextChoice()) % cand.size();
       Th* t = ths_[cand[k]];
-      if (k >= nRunnable) {   // time out a blocked timed waiter
+      if (k >= nRunnable + nTimed) {   // spurious return of a blocked waiter
+        t->timedOut = false;
+        steps_.push_back(std::to_string(cand[k]) + ":futex.spurious");
+      } else if (k >= nRunnable) {   // time out a blocked timed waiter
         t->timedOut = true;
         steps_.push_back(std::to_string(cand[k]) + ":futex.timeout");
       } else {
@@ -203,6 +210,7 @@ class Sched {
   }
 
   const std::string& status() const { return status_; }
+  void setSpurious(bool b) { allowSpurious_ = b; }
 
   // number of steps granted so far = index of the next step (callable from an enrolled thread while it runs: nobody else does)
   long nsteps() {
@@ -246,6 +254,7 @@ class Sched {
   long budget_;
   bool allowTimeouts_;
   bool freeRun_ = false;
+  bool allowSpurious_ = false;
   std::vector<std::string> steps_;
   std::string status_ = "init";
 };
